@@ -39,6 +39,34 @@ def gen_case(rng):
     return case
 
 
+def exhaustive_cases(polys):
+    """TLC-emitted universe x subvalue over every partial assignment of domain values / subgraph over every node set and
+    0/1 connection map / normalize, as dict and as a model of each domain"""
+    import itertools
+    out = []
+    for p in polys:
+        for spin in (False, True):
+            dom = [1, -1] if spin else [0, 1]
+            for kind, labels in (("dict", ["a", (1, 2)]), ("PUSO" if spin else "PUBO", ["x", 3])):
+                terms = pure.instantiate(p, labels)
+                for r in (1, 2):
+                    for chosen in itertools.combinations(labels, r):
+                        for vals in itertools.product(dom, repeat=r):
+                            out.append({"op": "subvalue", "spin": spin, "kind": kind, "labels": labels, "terms": dict(terms),
+                                        "method": kind != "dict", "vals": [[l, v] for l, v in zip(chosen, vals)]})
+                for r in (0, 1, 2):
+                    for nodes in itertools.combinations(labels, r):
+                        outside = [l for l in labels if l not in nodes]
+                        for vals in itertools.product(dom, repeat=len(outside)):
+                            out.append({"op": "subgraph", "spin": spin, "kind": kind, "labels": labels, "terms": dict(terms),
+                                        "method": kind != "dict", "nodes": list(nodes), "vals": [[l, v] for l, v in zip(outside, vals)],
+                                        "conn_none": False})
+                if terms and max(abs(v) for v in terms.values()) in (1, 2):
+                    out.append({"op": "normalize", "spin": spin, "kind": kind, "labels": labels, "terms": dict(terms),
+                                "method": kind != "dict", "norm_value": 3})
+    return out
+
+
 def run_case(case, cid):
     from qubovert import utils
     import sympy
@@ -103,6 +131,11 @@ def run(tier, out, replay=None):
     rng = common.rng_for(out.seed, "c18")
     try:
         cases = [gen_case(rng) for _ in range(20000 if tier == "thorough" else 3000)]
+        polys, udesc = pure.universe("2f" if tier == "thorough" else "2s", wd)
+        ex = exhaustive_cases(polys)
+        cases = ex + cases
+        out.set("exhaustive_universe", udesc)
+        out.set("exhaustive_cases", len(ex))
         for i, c in enumerate(cases):
             c["_index"] = i
         if replay:
